@@ -130,7 +130,20 @@ func universesFor(ctx *vrun.Ctx, mining bool) []*Universe {
 		if ctx.Thorough && i%3 == 2 {
 			size = 5
 		}
-		us = append(us, RandomUniverse(rng, fmt.Sprintf("rand%d_%d", ctx.Seed, i), size))
+		// a random description is used only if the factory can realise it exactly (a witness-carrying
+		// transaction cannot be padded to every virtual size: weight/4 rounds); otherwise the next draw is taken
+		var ru *Universe
+		for try := 0; try < 50; try++ {
+			cand := RandomUniverse(rng, fmt.Sprintf("rand%d_%d", ctx.Seed, i), size)
+			if _, err := BuildConcrete(cand); err == nil {
+				ru = cand
+				break
+			}
+			ctx.AddExtra("random_universes_redrawn_not_realisable", 1)
+		}
+		if ru != nil {
+			us = append(us, ru)
+		}
 	}
 	return us
 }
